@@ -9,26 +9,30 @@
 (***************************************************************************)
 EXTENDS WriterContract, Json
 
-VARIABLES l, viol
-tvars == <<cvars, l, viol>>
+VARIABLES l, viol, noted   \* noted: clauses already reported for the current trace
+tvars == <<cvars, l, viol, noted>>
 
 Trace == ndJsonDeserialize("trace.ndjson")
 
-Note(fs) == IF fs = {} THEN viol ELSE Append(viol, [l |-> l, c |-> fs])
+\* a clause is reported once per trace (the first event that violates it)
+New(fs)  == fs \ noted
+Note(fs) == IF New(fs) = {} THEN viol ELSE Append(viol, [l |-> l, c |-> New(fs)])
+Rec(fs)      == viol' = Note(fs) /\ noted' = noted \cup fs
+RecBegin(fs) == viol' = (IF fs = {} THEN viol ELSE Append(viol, [l |-> l, c |-> fs])) /\ noted' = fs
 
-TInit == l = 1 /\ viol = <<>> /\ CInit
+TInit == l = 1 /\ viol = <<>> /\ noted = {} /\ CInit
 
 TNext ==
   /\ l <= Len(Trace)
   /\ l' = l + 1
   /\ LET e == Trace[l] IN
-     CASE e.ev = "Begin" -> Begin(e) /\ UNCHANGED viol
-       [] e.ev = "Reset" -> Reset(e) /\ UNCHANGED viol
-       [] e.ev \in {"Write", "Flush", "Close"} -> Call(e) /\ viol' = Note(Failed(e))
-       [] e.ev = "Cmp"   -> UNCHANGED cvars /\ viol' = Note(CmpFailed(e))
-       [] e.ev = "Ctor"  -> UNCHANGED cvars /\ viol' = Note(CtorFailed(e))
+     CASE e.ev = "Begin" -> Begin(e) /\ RecBegin({})
+       [] e.ev = "Reset" -> Reset(e) /\ UNCHANGED <<viol, noted>>
+       [] e.ev \in {"Write", "Flush", "Close"} -> Call(e) /\ Rec(Failed(e))
+       [] e.ev = "Cmp"   -> UNCHANGED cvars /\ Rec(CmpFailed(e))
+       [] e.ev = "Ctor"  -> UNCHANGED cvars /\ Rec(CtorFailed(e))
        \* the worker process died or hung inside this case (recorded by the driver)
-       [] e.ev \in {"Crash", "Hang"} -> UNCHANGED cvars /\ viol' = Note({"C16.nopanic", "C14.nopanic_on_failure", "C01.nocrash"})
+       [] e.ev \in {"Crash", "Hang"} -> UNCHANGED cvars /\ RecBegin({"C16.nopanic", "C14.nopanic_on_failure", "C01.nocrash"})
 
 TSpec == TInit /\ [][TNext]_tvars
 
